@@ -547,6 +547,19 @@ theorem ratio_log (above all : List ℝ) (ha : 0 < evidence above) (hb : 0 < evi
   unfold ratioLin
   rw [Real.log_div ha.ne' hb.ne']
 
+/-- `ratio_ns = log Ẑ_live − log Ẑ_nested` is the logarithm of the linear ratio when BOTH evidences are positive -/
+theorem ratio_ns_log (live nested : List ℝ) (ha : 0 < evidence live) (hb : 0 < evidence nested) :
+    Real.log (evidence live) - Real.log (evidence nested) = Real.log (ratioNsLin live nested) := by
+  unfold ratioNsLin
+  rw [Real.log_div ha.ne' hb.ne']
+
+/-- … and ONLY then: when the nested evidence is zero (every discarded sample at likelihood zero — a likelihood that is `-inf` on
+part of the prior) the model's quotient is the field's totalised `x / 0 = 0`, while the code's `log Ẑ_live − log 0` is `+inf`.
+That point is outside the model: the correspondence decides it by the logarithms (DESIGN 11.3, the false alarm at seed 52). -/
+theorem ratio_ns_outside_domain (live nested : List ℝ) (hb : evidence nested = 0) : ratioNsLin live nested = 0 := by
+  unfold ratioNsLin
+  rw [hb, div_zero]
+
 /-- `log_dZ = |log Ẑ_k − log Ẑ_{k−1}|` is the logarithm of `max/min` of the two evidences, so
 `log_dZ ≤ t` iff the evidences differ by a factor of at most `e^t` -/
 theorem log_dZ_def (a b t : ℝ) (ha : 0 < a) (hb : 0 < b) :
